@@ -109,7 +109,7 @@ def stepClean (ins impl : List String) : Option String := do
     let i ← hexDecode q
     -- property side: the cleaned form of an absolute path is what the kernel resolves
     let spec :=
-      if isAbs p ∧ (Bytes.splitOn Bytes.slash i).filter (· != []) != resolve p
+      if isAbs p ∧ comps i != resolve p
       then some "C17.clean-is-not-resolution" else none
     pure (verdict (m == i) spec (hexEncode m))
   | _, _ => none
